@@ -61,12 +61,30 @@ class C07(Prop):
                 orders = [tuple(tuple(cl) for cl in o) for o, _ in c["profile"]]
                 c["type"] = gen.infer_type(orders, len(c["alts"]))
             yield {"kind": "tables", **c}
+            if i % 5 == 0:
+                # the same instance object queried, grown through the public API, and queried again
+                c2 = gen.ordinal_case(rng, m=rng.randint(2, 6), n=rng.randint(1, 4))
+                yield {"kind": "grow", "first": [o for o, _ in c["profile"]], "more": [o for o, _ in c2["profile"]]}
 
     def run_impl(self, case):
-        from preflibtools.properties import pairwisecomparisons as PC
-        from preflibtools.instances.convert import order_to_pwg
+        if case["kind"] == "grow":
+            from preflibtools.instances import OrdinalInstance
+            inst = OrdinalInstance()
+            stages = []
+            for batch in (case["first"], case["more"]):
+                inst.append_order_list([tuple(tuple(c) for c in o) for o in batch])
+                snap = {"type": inst.data_type, "alts": [int(a) for a in inst.alternatives_name],
+                        "profile": [[[list(c) for c in o], int(m)] for o, m in inst.multiplicity.items()]}
+                stages.append({"snap": snap, "obs": self._query(inst, snap)})
+            self.count("grow")
+            return {"stages": stages}
         inst = gen.inst_of(case)
         self.count("type:" + case["type"])
+        return self._query(inst, case)
+
+    def _query(self, inst, case):
+        from preflibtools.properties import pairwisecomparisons as PC
+        from preflibtools.instances.convert import order_to_pwg
         obs = {
             "pairwise": _table(call(PC.pairwise_scores, inst)),
             "copeland": _table(call(PC.copeland_scores, inst)),
@@ -92,15 +110,29 @@ class C07(Prop):
             return "unparsable"
 
     def requests(self, case, obs):
+        if case["kind"] == "grow":
+            return [dict(gen.model_inst(st["snap"]), op="voting.tables") for st in obs["stages"]]
         return [dict(gen.model_inst(case), op="voting.tables")]
 
     def nontrivial_key(self, case, obs):
+        if case["kind"] == "grow":
+            return repr(case)
         if len(case["profile"]) < 2 and case["type"] in ("soc", "soi"):
             return None
         return repr((case["alts"], case["profile"]))
 
     def judge(self, case, obs, replies):
-        rep = replies[0]
+        if case["kind"] == "grow":
+            out = []
+            for k, (st, rep) in enumerate(zip(obs["stages"], replies)):
+                for p in self._judge_one(dict(st["snap"], kind="tables"), st["obs"], rep):
+                    p.case = case
+                    p.what = f"after append_order_list call {k + 1} on the same instance: " + p.what
+                    out.append(p)
+            return out
+        return self._judge_one(case, obs, replies[0])
+
+    def _judge_one(self, case, obs, rep):
         out = []
         alts = case["alts"]
         assert rep["wf"], "generator produced an ill-formed instance"
@@ -137,12 +169,19 @@ class C07(Prop):
             P(f"order_to_pwg gives {g}, expected {exp}", "order_to_pwg")
         # model vs spec / impl (model-only observables)
         mod_pw = {a: dict(row) for a, row in rep["pairwise"]}
-        if mod_pw != spec or rep["condorcet"] != rep["specCondorcet"] or rep["weakCondorcet"] != rep["specWeakCondorcet"]:
+        if mod_pw != spec or (len(alts) >= 2 and (rep["condorcet"] != rep["specCondorcet"]
+                                                   or rep["weakCondorcet"] != rep["specWeakCondorcet"])):
             out.append(Problem("disagreement", case, "Lean model differs from Lean spec", "model/spec"))
         return out
 
     def shrink_candidates(self, case):
-        return gen.shrink_profile_case(case)
+        if case["kind"] == "grow":
+            for key in ("first", "more"):
+                for i in range(len(case[key])):
+                    if len(case[key]) > 1:
+                        yield dict(case, **{key: case[key][:i] + case[key][i + 1:]})
+            return
+        yield from gen.shrink_profile_case(case)
 
 
 PROP = C07
